@@ -876,6 +876,25 @@ def replay(rp):
         print("expr:", ob.describe(e), "diagonal ->", obs_json(r), "expected", obs_json(exp))
         print("property failure: " + fk if fk else "property holds on this case")
         return 1 if fk else 0
+    if rp.get("kind", "").startswith("apply-permutation"):
+        from linear_operator.utils.permutation import apply_permutation
+        from linear_operator import settings
+        left = None if rp.get("left") is None else ob.tt(rp["left"])
+        right = None if rp.get("right") is None else ob.tt(rp["right"])
+        with settings.debug(bool(rp.get("debug"))):
+            try:
+                r = apply_permutation(op, left, right)
+                r = ("ok", rint(r) if is_integral(r) else r.detach(), r.dtype)
+            except Exception as ex:      # noqa
+                r = ("err", type(ex).__name__, str(ex)[:160])
+        bidx = [torch.arange(b).view([b if i == j else 1 for j in range(TD.dim() - 2)] + [1, 1]) for i, b in enumerate(TD.shape[:-2])]
+        L = left if left is not None else torch.arange(TD.shape[-2])
+        R = right if right is not None else torch.arange(TD.shape[-1])
+        exp = ("ok", TD[(*bidx, L.unsqueeze(-1), R.unsqueeze(-2))])
+        fk = fail_kind(r, exp, dt)
+        print("expr:", ob.describe(e), "apply_permutation ->", obs_json(r), "expected", obs_json(exp))
+        print("property failure: " + fk if fk else "property holds on this case")
+        return 1 if fk else 0
     items, bare = rp["index"], rp.get("bare", False)
     idx = ix.to_py(items, bare)
     exp = run_dense(TD, idx)
